@@ -156,6 +156,17 @@ def _run_sep(ctx, spec, rng):
     ctx.sample("O2a:separable-never-entangled", {"dims": [da, db], "terms": k, "verdict": verdict, "return_site": site})
     if da * db <= 6:
         ctx.check("O2c:small-systems=PPT", verdict is True, sig=(da, db, "sep"), nt=True, mech="is_separable:small-system-differs-from-PPT", detail={"dims": [da, db], "site": site})
+    # the dimension argument omitted (first dimension round(sqrt(N)): equal dimensions and 2x3) or given as a single integer
+    if da == db or (da, db) == (2, 3):
+        v2, s2 = ask_separable(ctx, rho, None, cls + "-dim-omitted")
+        if v2 is not None:
+            ctx.check("O2a:separable-never-entangled", v2 is True, sig=(da, db, "dim-omitted"), nt=True, mech=f"is_separable:separable-declared-entangled@[{s2}]",
+                      detail={"dims": "omitted", "true_dims": [da, db], "return_site": s2})
+    if da * db <= 9:
+        v3, s3 = ask_separable(ctx, rho, da, cls + "-dim-int")
+        if v3 is not None:
+            ctx.check("O2a:separable-never-entangled", v3 is True, sig=(da, db, "dim-int"), nt=True, mech=f"is_separable:separable-declared-entangled@[{s3}]",
+                      detail={"dims": da, "true_dims": [da, db], "return_site": s3})
 
 
 def _npt_state(rng, da, db, cplx):
@@ -198,8 +209,8 @@ def _run_npt(ctx, spec, rng):
               detail={"dims": [da, db], "lambda_min_PT": lam_min, "return_site": site})
     if da * db <= 6:
         ctx.check("O2c:small-systems=PPT", verdict is False, sig=(da, db, "npt"), nt=True, mech="is_separable:small-system-differs-from-PPT", detail={"dims": [da, db], "site": site})
-    # dim given as a scalar / omitted
-    if da == db:
+    # dim given as a scalar / omitted (omitted means first dimension round(sqrt(N)): equal dimensions, 2x3 and 3x4)
+    if da == db or (da, db) in ((2, 3), (3, 4)):
         v2, s2 = ask_separable(ctx, rho, None, "npt-dim-omitted")
         if v2 is not None:
             ctx.check("O2b:npt-never-separable", v2 is False, sig=(da, db, "dim-omitted"), nt=True, mech=f"is_separable:npt-declared-separable@[{s2}]", detail={"dims": "omitted", "site": s2})
